@@ -26,7 +26,7 @@ type fcase struct {
 	NExt     int    // extension lines in the generated pointer
 	Size     int    // N-c: size
 	Delivery string // chunk plan (oneshot) or packetisation (process)
-	Wt       string // working tree file at the path: absent | same | short10
+	Wt       string // working tree file at the path: absent | same | short10 | big5000
 	CfgExt   bool   // an LFS extension (lfs.extension.vx) is configured
 }
 
@@ -146,6 +146,8 @@ func setWt(abs, state string, b []byte) {
 		os.WriteFile(abs, b, 0o644)
 	case "short10":
 		os.WriteFile(abs, []byte("0123456789"), 0o644)
+	case "big5000": // the working tree holds the full (large) content while Git sends something else for the path
+		os.WriteFile(abs, bytes.Repeat([]byte("BIGCONTENT"), 500), 0o644)
 	default:
 		panic("unknown wt state " + state)
 	}
